@@ -172,6 +172,7 @@ class Session(object):
             finally:
                 self.used_axioms |= ctx.used_axioms
 
+        t_start = time.time()
         try:
             ctxs = explore(run, self.stats, max_paths=max_paths)
         except OutsideSubset as e:
@@ -186,8 +187,8 @@ class Session(object):
                 self.obligations.append(o)
                 n += 1
         self.paths += len(ctxs)
-        self.notes.append('%s: %d paths, %d obligation instances' %
-                          (label, len(ctxs), n))
+        self.notes.append('%s: %d paths, %d obligation instances, %.1fs' %
+                          (label, len(ctxs), n, time.time() - t_start))
         return ctxs
 
     def verify(self, contract, active=(), label=None, max_paths=20000,
